@@ -73,7 +73,10 @@ class OWorld(World):
             return
         if o.kind == "lock":
             self.depth -= 1
-            self.log.append(("release", self.h.snapshot(it)))
+            post = self.h.snapshot(it)
+            self.log.append(("release", post))
+            if self.depth == 0:
+                self.h.guarantee_at_release(it, post)
             return
         return super().exit(it, o)
 
@@ -162,6 +165,28 @@ class SchedObsHarness:
             self.set_state(it, q, acq, flt)
         self.w.log.append(("interference", where))
 
+    def guarantee_at_release(self, it, post):
+        """rely / guarantee: every critical section of a role keeps THAT role's guarantee - checked where the lock is released, whatever the
+        method goes on to do (the other role relies on it from this moment on: a producer that loaded `self.queue` before this section appends
+        to the list object it loaded)"""
+        if self.role is None or not getattr(self, "cs_pre", None) or getattr(self, "cs_uid", None) is None:
+            return
+        pre = self.cs_pre
+        n = sum(1 for e in self.w.log if e[0] == "release")
+        if self.role == "runner":
+            q_ok = z3.Or(post["queue"] == pre["queue"],
+                         z3.And(z3.Length(pre["queue"]) > 0, pre["queue"] == z3.Concat(z3.Unit(pre["queue"][0]), post["queue"])),
+                         z3.And(z3.Length(post["queue"]) == 0, post["flt"]))
+            a_ok = z3.Or(post["acq"] == pre["acq"], z3.And(pre["acq"], z3.Not(post["acq"]), z3.Length(pre["queue"]) == 0, z3.Length(post["queue"]) == 0))
+            f_ok = z3.Implies(pre["flt"], post["flt"])
+            self.rec(it.ctx, self.cs_uid + f"/critical-section#{n}/keeps-the-runner's-guarantee (the queue loses at most its head - or everything together with the fault latch; "
+                     "the token is given up only over an empty queue)", z3.And(q_ok, a_ok, f_ok))
+            # the list OBJECT producers append to (lock-free, A-gil) stays the same one unless the fault latch is set in this very section
+            same_obj = self.obj.fields.get("queue") is getattr(self, "cs_queue_obj", None)
+            if not same_obj:
+                self.rec(it.ctx, self.cs_uid + f"/critical-section#{n}/replaces-the-queue-object-only-together-with-the-fault-latch", post["flt"],
+                         detail="producers append without the lock to the list object they loaded: an append racing with this section lands on the detached list")
+
     def read_hook(self, it, obj, name):
         if obj is self.obj and name in SHARED:
             if self.w.depth == 0:
@@ -174,6 +199,7 @@ class SchedObsHarness:
         obj.fields[name] = new
 
     def setup(self, ctx, cls_name="ScheduledObserver", mod="reactivex.observer.scheduledobserver"):
+        self.cs_uid = None
         w = self.w = OWorld(self)
         it = Interp(self.loader, ctx, w)
         base = it.elem_from_term
@@ -291,6 +317,7 @@ class SchedObsHarness:
         # entered with the token: acquired, not faulted, any queue
         self.arbitrary_state(it, ctx, acquired=True, faulted=False)
         self.role, self.holds_token = "runner", True
+        self.cs_uid = uid
         w.log.clear()
         self.unlocked = []
         raised = None
@@ -437,6 +464,7 @@ def _interfere(self, it, where):
         snap = self.snapshot(it)
         self.cs_pre = snap
         self.cs_pre_all.append(snap)
+        self.cs_queue_obj = self.obj.fields.get("queue")
 
 
 SchedObsHarness.interfere = _interfere
